@@ -210,4 +210,128 @@ theorem fj_known : TargetsKnown fjSpec := by
   rcases ht with rfl | rfl | rfl | rfl | rfl | rfl <;> simp [outNames, clause, fjSpec, fjGraph] at hx <;>
     (try rcases hx with rfl | rfl) <;> (try subst hx) <;> decide
 
+/-! ### a `join: all` that fails early and is re-opened by a late branch -/
+
+def eGraph : Graph := {
+  tasks := [⟨"p1", none, ["j"], [], [], []⟩, ⟨"p2", none, ["j"], [], [], []⟩, ⟨"q", none, [], ["j"], [], []⟩,
+            ⟨"j", some .all, [], ["e"], [], []⟩, ⟨"e", none, [], [], [], []⟩],
+  defaults := none }
+
+def eSpec : Spec := {
+  graph := eGraph,
+  live := [⟨"p1", ["j"], [], []⟩, ⟨"p2", ["j"], [], []⟩, ⟨"q", [], ["j"], []⟩, ⟨"j", [], ["e"], []⟩, ⟨"e", [], [], []⟩] }
+
+def eRank : String → Nat := fun n => if n == "j" then 1 else if n == "e" then 2 else 0
+
+/-- every action succeeds -/
+def eOrc : String → Bool := fun _ => true
+
+/-- q and p1 complete, the join fails ("not triggered" by q), e runs; THEN the late branch p2 completes -/
+def eLate : List Event :=
+  [.deliver (.postStartTask ("q", 0) true),
+     .deliver (.postStartTask ("p2", 0) true),
+     .deliver (.postStartTask ("p1", 0) true),
+     .deliver (.rpcStartTask ("q", 0) true),
+     .deliver (.rpcStartTask ("p2", 0) true),
+     .deliver (.rpcStartTask ("p1", 0) true),
+     .deliver (.postRunAction ("q", 0)),
+     .deliver (.postRunAction ("p2", 0)),
+     .deliver (.postRunAction ("p1", 0)),
+     .execute ("q", 0) true,
+     .execute ("p2", 0) true,
+     .execute ("p1", 0) true,
+     .deliver (.rpcResult ("q", 0) true),
+     .deliver (.rpcResult ("p1", 0) true),
+     .deliver .postCheck,
+     .deliver (.postStartTask ("j", 0) true),
+     .deliver (.postSchedRefresh ("j", 0)),
+     .deliver (.rpcStartTask ("j", 0) true),
+     .deliver (.jobRefresh ("j", 0)),
+     .deliver (.postStartTask ("e", 0) true),
+     .deliver (.rpcStartTask ("e", 0) true),
+     .deliver (.postRunAction ("e", 0)),
+     .execute ("e", 0) true,
+     .deliver (.rpcResult ("e", 0) true),
+     .deliver .postCheck,
+     .deliver (.rpcResult ("p2", 0) true),
+     .deliver (.postStartTask ("j", 0) true),
+     .deliver (.postSchedRefresh ("j", 0)),
+     .deliver (.rpcStartTask ("j", 0) true),
+     .deliver (.jobRefresh ("j", 0)),
+     .deliver (.postStartTask ("e", 1) true),
+     .deliver (.rpcStartTask ("e", 1) true),
+     .deliver (.postRunAction ("e", 1)),
+     .execute ("e", 1) true,
+     .deliver (.rpcResult ("e", 1) true),
+     .deliver .postCheck]
+
+/-- first-in first-out: all three branches complete before the join is refreshed -/
+def eFifo : List Event :=
+  [.deliver (.postStartTask ("p1", 0) true),
+     .deliver (.postStartTask ("p2", 0) true),
+     .deliver (.postStartTask ("q", 0) true),
+     .deliver (.rpcStartTask ("p1", 0) true),
+     .deliver (.rpcStartTask ("p2", 0) true),
+     .deliver (.rpcStartTask ("q", 0) true),
+     .deliver (.postRunAction ("p1", 0)),
+     .deliver (.postRunAction ("p2", 0)),
+     .deliver (.postRunAction ("q", 0)),
+     .execute ("p1", 0) true,
+     .execute ("p2", 0) true,
+     .execute ("q", 0) true,
+     .deliver (.rpcResult ("p1", 0) true),
+     .deliver (.rpcResult ("p2", 0) true),
+     .deliver (.rpcResult ("q", 0) true),
+     .deliver (.postStartTask ("j", 0) true),
+     .deliver (.postSchedRefresh ("j", 0)),
+     .deliver (.postStartTask ("j", 0) true),
+     .deliver (.postSchedRefresh ("j", 0)),
+     .deliver .postCheck,
+     .deliver (.postSchedRefresh ("j", 0)),
+     .deliver (.rpcStartTask ("j", 0) true),
+     .deliver (.jobRefresh ("j", 0)),
+     .deliver (.rpcStartTask ("j", 0) true),
+     .deliver (.postStartTask ("e", 0) true),
+     .deliver (.rpcStartTask ("e", 0) true),
+     .deliver (.postRunAction ("e", 0)),
+     .execute ("e", 0) true,
+     .deliver (.rpcResult ("e", 0) true),
+     .deliver .postCheck]
+
+theorem e_names : namesUnique eSpec := by unfold namesUnique; decide
+
+theorem e_joins : joinsSatisfiable eSpec := by
+  intro t ht n hn
+  simp [eSpec, eGraph] at ht
+  rcases ht with rfl | rfl | rfl | rfl | rfl <;> simp at hn
+
+theorem e_budget : walkBudgetOK eSpec := by decide
+
+theorem e_live : liveInGraph eSpec := by
+  intro l hl x hx
+  simp [eSpec] at hl
+  rcases hl with rfl | rfl | rfl | rfl | rfl <;> simp at hx <;> (try subst hx) <;> decide
+
+theorem e_rank : ∀ t, ∀ p ∈ inbound eSpec.graph t, eRank p.name < eRank t := by
+  intro t p hp
+  simp [inbound, eSpec, eGraph, outNames, clause] at hp
+  rcases hp with ⟨hp, ht⟩
+  rcases hp with rfl | rfl | rfl | rfl | rfl <;> simp at ht <;> (try subst ht) <;> decide
+
+theorem e_fuel : ∀ t, eRank t < fuelFor eSpec := by
+  intro t
+  simp only [eRank, fuelFor]
+  repeat' split
+  all_goals decide
+
+theorem e_ok : SpecOK eSpec eRank := ⟨e_names, e_joins, e_budget, e_live, e_rank, e_fuel⟩
+
+theorem e_starts : startTasks eSpec ≠ [] := by decide
+
+theorem e_known : TargetsKnown eSpec := by
+  intro t ht x hx
+  simp [eSpec, eGraph] at ht
+  rcases ht with rfl | rfl | rfl | rfl | rfl <;> simp [outNames, clause, eSpec, eGraph] at hx <;>
+    (try subst hx) <;> decide
+
 end Mistral.Sem.Wit
